@@ -289,6 +289,14 @@ func c20GenJobs(r *rand.Rand, p *c20pool, n int) []c20job {
 					break
 				}
 			}
+		case q == 6 && r.Intn(5) == 0:
+			a := r.Intn(np)
+			for len(p.vals[a].Shape) < 2 || len(p.vals[a].Data) > 64 {
+				a = (a + 1) % np
+			}
+			jobs = append(jobs, c20job{kind: "read-shared", a: a, seed: r.Int63()})
+		case q == 6 && r.Intn(5) == 0:
+			jobs = append(jobs, c20job{kind: "private-constants", seed: r.Int63()})
 		case q == 6 && r.Intn(4) == 0:
 			jobs = append(jobs, c20job{kind: "shared-index", seed: r.Int63(), a: p.pair[0]})
 		case q == 6 && r.Intn(3) == 0:
@@ -401,6 +409,84 @@ func c20Run(p *c20pool, jobs []c20job, inject *rand.Rand, start time.Time, rec *
 				if e := hashBits(&out, res); e != nil {
 					return out, e
 				}
+			}
+		case "read-shared": // every element of a SHARED tensor of rank >= 2 is read with At, rows in an order of the goroutine's own
+			t := p.ts[j.a]
+			shape := p.vals[j.a].Shape
+			r := rand.New(rand.NewSource(j.seed))
+			rows := r.Perm(shape[0])
+			var sum []uint64
+			if e := span("At/Shape/NElems(shared tensor)", []int{j.a}, func() error {
+				idx := make([]int, len(shape))
+				for _, row := range rows {
+					idx[0] = row
+					for off := 0; off < len(p.vals[j.a].Data)/shape[0]; off++ {
+						rest := ref.Unravel(off, shape[1:])
+						copy(idx[1:], rest)
+						v, err := t.At(idx...)
+						if err != nil {
+							return err
+						}
+						if want := p.vals[j.a].Data[row*(len(p.vals[j.a].Data)/shape[0])+off]; math.Float64bits(v) != math.Float64bits(want) && !(v != v && want != want) {
+							return fmt.Errorf("At%v on shared tensor %d returned %v, the tensor holds %v there", idx, j.a, v, want)
+						}
+						sum = append(sum, math.Float64bits(v))
+					}
+				}
+				if t.NElems() != len(p.vals[j.a].Data) || !ref.SameShape(t.Shape(), shape) {
+					return fmt.Errorf("Shape/NElems of shared tensor %d changed", j.a)
+				}
+				return nil
+			}); e != nil {
+				return out, e
+			}
+			sort.Slice(sum, func(a, b int) bool { return sum[a] < sum[b] })
+			out = append(out, sum...)
+		case "private-constants": // every goroutine builds ITS OWN constants with the same arguments as everybody else; they are independent objects
+			r := rand.New(rand.NewSource(j.seed))
+			trainer := r.Intn(2) == 0
+			if e := span("Eye/Ones/Full(private, same arguments in every goroutine)", nil, func() error {
+				for ci, mk := range []func() (tensor.Tensor, error){
+					func() (tensor.Tensor, error) { return tensor.Eye(3, nil) },
+					func() (tensor.Tensor, error) { return tensor.Ones([]int{3, 3}, nil) },
+					func() (tensor.Tensor, error) { return tensor.Full([]int{3, 3}, 2, nil) },
+					func() (tensor.Tensor, error) { return tensor.Zeros([]int{3, 3}, nil) },
+				} {
+					c, err := mk()
+					if err != nil {
+						return err
+					}
+					if trainer { // this goroutine makes its constant a parameter of its own and trains it
+						c.ResetGradContext(true)
+						if err := tensor.BackPropagate(c.Scale(2)); err != nil {
+							return err
+						}
+						if c.Gradient() == nil {
+							return fmt.Errorf("constant %d re-armed as a private parameter received no gradient", ci)
+						}
+						continue
+					}
+					w := rt.MustLeaf(RandT(r, []int{3, 3}, -1, 1), true)
+					y, err := w.MatMul(c)
+					if err != nil {
+						return err
+					}
+					if err := tensor.BackPropagate(y); err != nil {
+						return err
+					}
+					if w.Gradient() == nil {
+						return fmt.Errorf("private tracked operand of a product with a private constant (kind %d) received no gradient", ci)
+					}
+					if c.Gradient() != nil {
+						return fmt.Errorf("a private untracked constant (kind %d) carries a gradient", ci)
+					}
+					if e := hashBits(&out, w.Gradient()); e != nil {
+						return e
+					}
+				}
+				return nil
+			}); e != nil {
+				return out, e
 			}
 		case "shared-index": // one []Range value shared by all goroutines (nobody writes to it) indexes shared and private tensors of different sizes
 			r := rand.New(rand.NewSource(j.seed))
